@@ -305,8 +305,8 @@ fn check_cli(c: &CliCase, rec: &mut CaseRec) -> Verdict {
 
 pub fn property() -> Property {
     let families: Vec<Box<dyn Family>> = vec![
-        prop_family("in-process", 15_000, 600_000, |_| case(true), check_inproc),
-        prop_family("cli-processes", 4_000, 100_000, |_| (case(false), 0u8..8).prop_map(|(file, opts)| CliCase { file, opts }), check_cli),
+        prop_family("in-process", 50_000, 600_000, |_| case(true), check_inproc),
+        prop_family("cli-processes", 8_000, 100_000, |_| (case(false), 0u8..8).prop_map(|(file, opts)| CliCase { file, opts }), check_cli),
     ];
     Property {
         id: "C15",
